@@ -59,6 +59,7 @@ func runC13(run *Run, replay string) {
 			// fixed-value constraints against matching and non-matching written values (own random stream)
 			scs = append(scs, literalValueFocusScenario(rand.New(rand.NewSource(subSeed(run.Res.Seed, 777000+bi)))))
 		}
+		scs = append(scs, valueFocusShare(bi, bases)...)
 		for si, sc := range scs {
 			sc.W.Collect()
 			f := sc.Main.Ctx.Files[sc.File]
